@@ -105,8 +105,9 @@ Definition enc_result (r : res graph) : sx :=
       if N.eqb e EImpossible then SL [SB sym_gerr]
       else if N.eqb e ETooDeep then SL [SB sym_gerr]
       else if N.eqb e (EClientBase + EMissing) then SL [SB sym_missing]
+      else if N.eqb e (EMarkerBase + EMissing) then SL [SB sym_missing]
       else SL [SB sym_harderr]
-  | Panic _ => SL [SB sym_missing]
+  | Panic _ => SL [SB sym_panic]
   | OutOfFuel => SL [SB sym_fuel]
   end.
 
